@@ -1106,8 +1106,21 @@ static double cheapEstimatedCost(ConnRef *lineRef)
     return length - (route.size() + 1);
 }
 
+// Orders connectors by their IDs rather than by their addresses, so that 
+// which of several equally good candidates is rerouted does not depend on 
+// where the connectors happen to live in memory.
+class CmpConnRefById
+{
+    public:
+        bool operator() (const ConnRef *u, const ConnRef *v) const
+        {
+            return (u->id() < v->id());
+        }
+};
+
 // A map of connectors to the set of connectors that cross them.
-typedef std::map<ConnRef *, std::set<ConnRef *> > CrossingConnectorsMap;
+typedef std::map<ConnRef *, std::set<ConnRef *>, CmpConnRefById> 
+        CrossingConnectorsMap;
 
 // A list of connector crossing maps that don't interact with each other.
 typedef std::list<CrossingConnectorsMap> CrossingConnectorsMapList;
